@@ -68,7 +68,7 @@ TEXT ·AxpyUnitaryTo(SB), NOSPLIT, $0
 	MOVSD X3, (DI)(AX*8) // dst[i]  = X3
 	INCQ  AX             // i++
 	DECQ  CX             // --CX
-	JZ    caxy_tail      // if BX == 0 { goto caxy_tail }
+	JZ    caxy_end       // if CX == 0 { return }
 
 caxy_no_trim:
 	MOVAPS X0, X10   // Copy X0 and X1 for pipelineing
